@@ -1214,6 +1214,10 @@ func (p *Proc) resolveType(ec *ectx, e ast.Expr) types.Type {
 		if k != nil && v != nil {
 			return types.NewMap(k, v)
 		}
+	case *ast.StructType:
+		return types.NewStruct(nil, nil)
+	case *ast.FuncType:
+		return types.NewSignatureType(nil, nil, nil, nil, nil, false)
 	}
 	return nil
 }
